@@ -25,8 +25,11 @@ pub struct FieldMeta {
 
 #[derive(Clone, Debug)]
 pub struct VariantMeta {
-    /// datum ids, in id (= declaration) order
+    /// datum ids, in id order (the order of the generated `Unpacked*` structs)
     pub fields: Vec<usize>,
+    /// datum ids in the order the definition declared them (recorded by the definition
+    /// generator from the add requests themselves, not derived from the ids)
+    pub declared: Vec<usize>,
     pub minus: Vec<usize>,
     pub plus: Vec<usize>,
 }
